@@ -1,7 +1,11 @@
 package eng
 
 import (
+	"fmt"
 	"go/ast"
+	"go/types"
+	"sort"
+	"strings"
 )
 
 // GoSite is a goroutine spawn: a go statement or a (*sync.WaitGroup).Go call.
@@ -13,12 +17,17 @@ type GoSite struct {
 	Lit     *Func    // spawned literal, if any
 	Target  *Func    // spawned declared function, if it is a repository function
 	CallArg []ast.Expr
+	// Alias: the pinned literal this site stands for when its body is a closure that replaced
+	// several spawned literals (`fetch := func(){...}; go fetch(a); go fetch(b)`).
+	Alias string
 }
 
 // Key names the site without line numbers: "<spawner> -> <callee or literal index>".
 func (g GoSite) Key() string {
 	c := g.Callee
-	if g.Lit != nil {
+	if g.Alias != "" {
+		c = g.Alias
+	} else if g.Lit != nil {
 		c = g.Lit.Name
 	} else if g.Target != nil && g.Target.LitAlias != "" {
 		c = g.Target.LitAlias
@@ -40,6 +49,12 @@ func (p *Prog) GoSites() []GoSite {
 				} else {
 					s.Callee = CalleeName(info, x.Call)
 					s.Target = p.byName[s.Callee]
+					if s.Target == nil {
+						// a closure held in a local that is assigned once: `fetch := func(...){...}; go fetch(a)`
+						if lit := p.closureOfLocal(f, x.Call.Fun); lit != nil {
+							s.Lit = lit
+						}
+					}
 				}
 				out = append(out, s)
 			case *ast.CallExpr:
@@ -65,5 +80,66 @@ func (p *Prog) GoSites() []GoSite {
 			return true
 		})
 	}
+	// sites that start a closure held in a local take, in order, the identities of the spawned
+	// literals that vanished from their spawner
+	byF := map[*Func][]int{}
+	for i, s := range out {
+		if s.Lit != nil && s.ViaWG == nil {
+			if gs, ok := s.Node.(*ast.GoStmt); ok {
+				if _, direct := Unparen(gs.Call.Fun).(*ast.FuncLit); !direct {
+					byF[s.F] = append(byF[s.F], i)
+				}
+			}
+		}
+	}
+	for f, idx := range byF {
+		var gone []vanishedLit
+		for _, v := range p.vanished[f.Name] {
+			if strings.HasSuffix(v.desc, "|go") {
+				gone = append(gone, v)
+			}
+		}
+		if len(gone) != len(idx) {
+			continue
+		}
+		sort.Slice(gone, func(a, b int) bool { return gone[a].ord < gone[b].ord })
+		sort.Slice(idx, func(a, b int) bool { return out[idx[a]].Node.Pos() < out[idx[b]].Node.Pos() })
+		for k, i := range idx {
+			out[i].Alias = fmt.Sprintf("%s$%d", f.Name, gone[k].ord)
+		}
+	}
 	return out
+}
+
+// closureOfLocal resolves an identifier naming a local variable that is assigned exactly once,
+// from a function literal, to that literal.
+func (p *Prog) closureOfLocal(f *Func, e ast.Expr) *Func {
+	id, ok := Unparen(e).(*ast.Ident)
+	if !ok {
+		return nil
+	}
+	v, ok := f.Info().Uses[id].(*types.Var)
+	if !ok || v.IsField() {
+		return nil
+	}
+	var lits []*ast.FuncLit
+	n := 0
+	root := f.SynRoot()
+	var rec func(g *Func)
+	rec = func(g *Func) {
+		for _, d := range g.AssignedFrom(v) {
+			n++
+			if l, ok := Unparen(d).(*ast.FuncLit); ok && d != nil {
+				lits = append(lits, l)
+			}
+		}
+		for _, l := range g.Lits {
+			rec(l)
+		}
+	}
+	rec(root)
+	if n != 1 || len(lits) != 1 {
+		return nil
+	}
+	return p.byLit[lits[0]]
 }
